@@ -134,7 +134,34 @@ CLAIMS = [
         "design_ref": "DESIGN.md 6/C06, 12",
         "note": "Trusted as for C01.",
     },
+    {
+        "property_id": "C07",
+        "technique": "Lean 4 failure-atomicity theorems on the executable model (its fault points) + exhaustive enumeration of every reachable allocation / construction fault position on the real table (K5)",
+        "text": "Props/C07.lean, for every table state: a failed inserting call (bad_alloc at the model's allocation points, policy exceptions) leaves Inv and "
+                "the abstract contents unchanged and invokes no functor; a failed rehash/reserve additionally keeps the hashpower; the doubled bucket "
+                "array is allocated before any change (repaired F3); a throwing functor keeps the preceding insertion and its own partial effect and "
+                "nothing else; after any failure every operation sequence still refines the map. PARTIAL (theorem named alloc_failure_atomic_partial): "
+                "lock-vector / list-node / helper-thread allocations, throwing equality and throwing element constructors are not fault points of the "
+                "model; K5 enumerates them on the implementation: for every (state, operation) it re-runs the operation once per reachable allocation "
+                "index k in a forked child on a copy and checks exception kind, contents, hashpower, structural scan, size(), lock probe on every lock "
+                "array, usability, byte and object balance after destruction. Open findings F4 (failed rebuild leaves moved-from elements) and F11 "
+                "(copy assignment not failure-atomic) are reported as KNOWN-FINDING.",
+        "design_ref": "DESIGN.md 6/C07, 8, 12",
+        "note": "Trusted: Lean kernel; K5 harness (fork per trial, counting allocator, instrumented types). Helper threads > 0 not exercised (F10: bad_alloc inside noexcept code terminates).",
+    },
+    {
+        "property_id": "C08",
+        "technique": "Lean 4 theorems on the lifetime skeleton of the model (one live position per key, husks never live, old array released with the last stripe) + object-registry / allocator-balance monitoring of the real table (K5)",
+        "text": "Props/C08.lean: every key is held at exactly one live position after any operation sequence; cells left behind in the old array by a migration "
+                "are never part of the live view; the superseded bucket array is released exactly when its last stripe migrates (and by lock_table, "
+                "clear, batch migration). PARTIAL: object construction/destruction counts and the allocator balance are properties of the C++ object "
+                "model, which the functional model does not have; they are monitored on the implementation: instrumented key/value types record every "
+                "construction, move and destruction in a registry that is compared with the occupied slots after every request (no destroyed or "
+                "moved-from object in a live slot, no double destroy, nothing left after table destruction), together with a byte-balanced allocator and ASan.",
+        "design_ref": "DESIGN.md 6/C08, 9, 12",
+        "note": "The monitored clauses are exploration, not proof; finding F4 (moved-from elements after a failed rebuild) is open and reported as KNOWN-FINDING.",
+    },
 ]
 
 _PENDING = "machinery not built yet in this round (planned: DESIGN.md section 6); not claimed until its check exists"
-NOT_APPLICABLE = [{"property_id": "C%02d" % i, "reason": _PENDING} for i in range(1, 18) if i not in (1, 2, 3, 4, 5, 6, 9, 10, 12, 13, 17)]
+NOT_APPLICABLE = [{"property_id": "C%02d" % i, "reason": _PENDING} for i in range(1, 18) if i not in (1, 2, 3, 4, 5, 6, 7, 8, 9, 10, 12, 13, 17)]
